@@ -12,7 +12,12 @@ impl Repr {
     /// Find the simplest rational number in the open interval `(lower, upper)`.
     /// See [RBig::simplest_in()] and <https://stackoverflow.com/q/66980340/5960776>.
     pub fn simplest_in(mut lower: Self, mut upper: Self) -> Self {
-        let sign = if lower.numerator.sign() != upper.numerator.sign() {
+        let sign = if lower.numerator.is_zero() {
+            // zero is an end of the (open) interval, the sign is determined by the other end
+            upper.numerator.sign()
+        } else if upper.numerator.is_zero() {
+            lower.numerator.sign()
+        } else if lower.numerator.sign() != upper.numerator.sign() {
             // if lower < 0 < upper, then 0 is the simplest
             return Self::zero();
         } else {
